@@ -91,6 +91,8 @@ type Fault struct {
 	// Tail (FCloseMid only): when > 0 the reply is cut that many bytes before its end (for a hit:
 	// inside the value) instead of in the middle
 	Tail int
+	// Body (FStatus only): the message body of the injected reply ("injected error" when nil)
+	Body []byte
 }
 
 type Server struct {
@@ -398,7 +400,11 @@ func (s *Server) serve(c io.ReadWriteCloser, id int) {
 				// keep the injected reply truthful: the key vanishes at this moment
 				delete(s.data, key)
 			}
-			reply = respond(op, f.Status, opaque, nil, []byte("injected error"))
+			ebody := []byte("injected error")
+			if f.Body != nil {
+				ebody = f.Body
+			}
+			reply = respond(op, f.Status, opaque, nil, ebody)
 			req.Status = f.Status
 		} else if f.Kind == FCloseBefore {
 			if s.LogOn {
